@@ -3,8 +3,9 @@
 Correspondence (`c10_history`): random call histories over the public mutating / constructing API
 (insert_knot, refine, raise_order, lower_order, reverse, swap, reparam, split, Curve.append,
 make_periodic, lower_periodic, translate/scale/rotate/mirror/project/set_dimension/force_rational and
-their operator forms, section, surface/volume_factory.extrude, clone) on a POOL of objects (in-place
-calls replace the receiver, calls that create objects append them), executed on the real library and on
+their operator forms, section, surface/volume_factory.extrude, clone, make_splines_identical) on a POOL of
+objects (in-place calls replace the receiver, calls that create objects append them,
+make_splines_identical changes two objects), executed on the real library and on
 the Lean model `History.exec` (lean/Splipy/Model/History.lean — a dispatcher to the operation models
 of C04–C09 and C15).  After EVERY call:
   * the full state of every object touched by the call (knot vectors to 1e-12 relative, orders,
@@ -19,7 +20,11 @@ Parameter values (knots to insert, split points) are *symbolic* — "domain knot
 j", "fraction of the domain" — and are resolved by each side against its own current state, so that an
 existing knot is an existing knot on both sides in spite of rounding.  Histories are generated
 state-aware: the generator executes the real library to know orders, periodicity, sizes, and only keeps
-a raising call when it was drawn on purpose.
+a raising call when it was drawn on purpose.  A few hand-built histories (`_focus_cases`) hit the defect
+classes found so far deterministically.  The model follows the CODE everywhere (the operation models of
+C04-C09/C12/C15 mirror /repo as it is now); where the code leaves the family of well-formed objects the
+model does too and `wfB` says so on both sides, except `Curve.raise_order` with a singular collocation
+matrix, where the real code returns NaN control points and the exact model reports `LinAlgError`.
 
 Malformed-constructor stream (`c10_ctor`): valid open / periodic vectors, decreasing, too few knots,
 order <= 0, periodic end mismatch, each within and beyond `state.knot_tolerance`, and the "gap"
@@ -54,7 +59,7 @@ TOL = gen.TOL
 INCLUDE_DEFECT_CLASSES = True     # draw (rarely, as last call) the known defect classes of the called operations
 RULE = ('pool histories of 1-12 calls (quick) / up to 60 (thorough) over insert_knot, refine, raise_order, lower_order, reverse, '
         'swap, reparam (both conventions), split, Curve.append, make_periodic, lower_periodic, the affine family incl. operator '
-        'forms, section, extrude, clone; start objects: pardim 1-3, dim 1-3, rational (positive weights) or not, open and '
+        'forms, section, extrude, clone, make_splines_identical; start objects: pardim 1-3, dim 1-3, rational (positive weights) or not, open and '
         'periodic directions of order 1-4; symbolic knot/split values resolved against the current state; constructor stream: '
         'valid open/periodic, decreasing, too few, order<=0, periodic mismatch, within/beyond tolerance, accepted-but-not-periodic. '
         'distinct = distinct protocol lines; non-trivial = at least one call of the history completed (constructor cases: all).')
@@ -808,8 +813,12 @@ def _gen_history(rng, sp, nops, max_pool=7):
             raised = False
         except Exception:  # noqa: BLE001
             raised = True
-        if raised and not defect and rng.random() < 0.9:
-            continue            # an unplanned exception would just cut the history short
+        if raised and not defect:
+            # an unplanned exception would just cut the history short; besides, the ones met in practice are
+            # rounding effects the exact model cannot have (reparam() ending at 0.9999999999999998 makes
+            # make_splines_identical raise "out of range"; clamped end knots that differ by one ulp after
+            # append/roll make raise_order raise) - exceptions, not malformed objects
+            continue
         ops.append(ins)
         if raised:
             break
@@ -889,6 +898,9 @@ def _ctor_cases(rng, n):
                     continue
             # the same knot may enter two compared spacings, or both sides of one comparison: judge by the definition
             add('periodic-mismatch' if beyond else 'within-tol', p, kn2, k, 'by-definition')
+        elif r < 0.93:
+            b = gen.open_basis(rng, p, clamped=False)
+            add('valid-open', p, b['knots'], -1, 'accept')
         else:
             # accepted although not periodic: (a) uniform vector with k < p-2, (b) last ghost knot moved
             if rng.random() < 0.5:
@@ -1209,8 +1221,7 @@ def classify(s, res=None):
                 if fs and n == upto and 'non-positive weight' in first:
                     return f
             elif f in (CLASS_REVERSE_PER, CLASS_EXTRUDE_MUT):
-                if not fs:
-                    return f       # structure is fine; only the correspondence (control points) can differ
+                continue           # fixed in /repo (the model mirrors the fixed code); kept as coverage flags only
             elif f == CLASS_MAKEPER_SHORT:
                 if fs and n == upto:
                     return f
